@@ -8,7 +8,7 @@
    counter untouched (c02_rollback_no_trace).  The per-block id order under concurrent writers
    is the L3 invariant of props/C08.v (ids drawn under the block latch). *)
 From stdpp Require Import gmap sorting.
-From ColumnV Require Import Bytes Store StoreProofs StoreProofs2.
+From ColumnV Require Import GenShape Bytes Store StoreProofs StoreProofs2.
 Local Open Scope N_scope.
 
 Theorem c15_commit_stream : ∀ s t,
@@ -42,3 +42,10 @@ Example c15_example :
   let t := push (push txn0 1 (mkop KPut 5 (V8 7))) 1 (mkop KPut 20000 (V8 9)) in
   (rblk <$> emitted (commit s t)) = [0; 1] ∧ (rid <$> emitted (commit s t)) = [1; 2].
 Proof. vm_compute. done. Qed.
+
+(* regenerated from the source on every run: the id is drawn, the commit applied and both appends
+   (snapshot recorder, logger) made between Lock and Unlock of the block latch - the step structure
+   Conc.v's invariant (ids increase in apply order = logger order) is about *)
+Theorem c15_shape : shape_id_drawn_under_latch = true ∧ shape_callback_under_latch = true ∧ shape_appends_after_apply_inside_latch = true.
+Proof. repeat split; reflexivity. Qed.
+Print Assumptions c15_shape.
